@@ -51,7 +51,7 @@ Example C14_example :
   (forall i, i < 52 -> 3 <> 2 ^ i) /\ from_binary_card 3 = 0.
 Proof.
   repeat split; try (vm_compute; reflexivity).
-  - intros H. apply CardFacts.real_cardb_spec in H. vm_compute in H. discriminate.
+  - intros H. apply CardBase.real_cardb_spec in H. vm_compute in H. discriminate.
   - intros i Hi H. apply N.pow_inj_r in H; lia.
   - intros i Hi H. assert (E : popcount 3 = popcount (2 ^ i)) by now rewrite H.
     rewrite popcount_pow2 in E. vm_compute in E. discriminate.
